@@ -455,6 +455,55 @@ func runC01(c *fw.Ctx) {
 		}
 	}
 
+	// (a3) comment ladders: one to four own-line comments, each at the indentation of the statement
+	// before or of the token after, with or without empty lines between them, directly after a
+	// construct whose last line is indented deeper than its first (clause bodies, continuation
+	// lines); canonicalised with gofmt, duplicates dropped
+	li := 0
+	seenLadder := map[string]bool{}
+	for _, shape := range []struct {
+		name, before, after string
+		base                int
+	}{
+		{"case-body", "package p\n\nfunc f(x int) {\n\tswitch x {\n\tcase 1:\n\t\ta()\n", "\tcase 2:\n\t\tb()\n\t}\n}\n", 1},
+		{"comm-body", "package p\n\nfunc f(c chan int) {\n\tselect {\n\tcase <-c:\n\t\ta()\n", "\tdefault:\n\t}\n}\n", 1},
+		{"continuation", "package p\n\nfunc f() {\n\tg(1,\n\t\t2)\n", "\th()\n}\n", 1},
+		{"last-in-block", "package p\n\nfunc f() {\n\tif x {\n\t\tg(1,\n\t\t\t2)\n", "\t}\n}\n", 2},
+		{"decl-continuation", "package p\n\nvar x = g(1,\n\t2)\n", "var y int\n", 0},
+		{"block-end", "package p\n\nfunc f() {\n\tif x {\n\t\ta()\n\t}\n", "\tb()\n}\n", 1},
+	} {
+		for n := 1; n <= 4; n++ {
+			for im := 0; im < 1<<uint(n); im++ {
+				for bm := 0; bm < 1<<uint(n-1); bm++ {
+					i := li
+					li++
+					if !c.Mine(i) {
+						continue
+					}
+					var sb strings.Builder
+					sb.WriteString(shape.before)
+					for k := 0; k < n; k++ {
+						if k > 0 && bm&(1<<uint(k-1)) != 0 {
+							sb.WriteString("\n")
+						}
+						sb.WriteString(strings.Repeat("\t", shape.base+(im>>uint(k))&1) + fmt.Sprintf("// c%d\n", k+1))
+					}
+					sb.WriteString(shape.after)
+					src, ok := gen.Canonicalise([]byte(sb.String()))
+					if !ok || !corpus.Parses(src) {
+						c.Count("inconclusive_gofmt_not_idempotent", 1)
+						continue
+					}
+					if seenLadder[string(src)] {
+						continue
+					}
+					seenLadder[string(src)] = true
+					checkFile(fmt.Sprintf("ladder:%s/%d/%d/%d", shape.name, n, im, bm), "ladder.go", src, "comment-ladder")
+				}
+			}
+		}
+	}
+
 	// (c) comment mutations
 	mfiles := corpus.Sample(c.Rand("mut-files"), c.Pick(250, 3000))
 	kindsets := [][]string{{"block"}, {"eol", "own"}, {"blank", "own", "ownblk"}, {"block", "eol", "own", "blank", "ownblk", "mlblk"}, {"hang"}, {"hang", "blank", "eol"}}
